@@ -238,3 +238,46 @@ macro_rules! probes {
         }
     };
 }
+
+/// impl detection only (kinds 12..15), without the comparison operators: cheap enough to compile for every layout
+#[macro_export]
+macro_rules! probes_only {
+    ($T:ty) => {
+        |kind: usize, prim: usize, a: u128, b: u128| -> vcore::Out {
+            #[allow(unused_imports)]
+            use $crate::ops::{NoFrom, NoLossy, Probe, ProbeR};
+            macro_rules! one {
+                ($P:ty) => {
+                    match kind {
+                        12 => <Probe<$P, $T>>::from_(b),
+                        13 => <Probe<$P, $T>>::lossy_(b),
+                        14 => <ProbeR<$T, $P>>::from_(a),
+                        15 => <ProbeR<$T, $P>>::lossy_(a),
+                        _ => unreachable!("probe-only layout"),
+                    }
+                };
+            }
+            match prim {
+                0 => one!(i8),
+                1 => one!(i16),
+                2 => one!(i32),
+                3 => one!(i64),
+                4 => one!(i128),
+                5 => one!(isize),
+                6 => one!(u8),
+                7 => one!(u16),
+                8 => one!(u32),
+                9 => one!(u64),
+                10 => one!(u128),
+                11 => one!(usize),
+                12 => match kind {
+                    12 => <Probe<bool, $T>>::from_(b),
+                    13 => <Probe<bool, $T>>::lossy_(b),
+                    _ => vcore::Out::C($crate::ops::NOIMPL),
+                },
+                13 => one!(f32),
+                _ => one!(f64),
+            }
+        }
+    };
+}
